@@ -142,12 +142,28 @@ func declareHelpItem(c *cli.Cmd, it *HItem) {
 
 func helpOutput(c *HelpCase) (string, Outcome) {
 	var out Outcome
+	var app *cli.Cli
+	var argv []string
+	defer func() {
+		// the same request a second time on the same application object must print the same text
+		if out.Panic != "" || app == nil {
+			return
+		}
+		var out2 Outcome
+		WithSwap(&out2, func() { _ = app.Run(argv) })
+		if out2.Panic != "" {
+			out.Panic = "second rendering: " + out2.Panic
+		} else if out2.Stderr != out.Stderr {
+			out.Err = "DIFFERENT-SECOND-RENDERING"
+			out.Raw = map[string][]string{"second": {out2.Stderr}}
+		}
+	}()
 	WithSwap(&out, func() {
 		appDesc := "zzappdesc"
 		if len(c.Parents) == 0 {
 			appDesc = c.Desc
 		}
-		app := cli.App("app", appDesc)
+		app = cli.App("app", appDesc)
 		app.ErrorHandling = flag.ContinueOnError
 		var conf func(cmd *cli.Cmd, lvl int)
 		conf = func(cmd *cli.Cmd, lvl int) {
@@ -179,7 +195,7 @@ func helpOutput(c *HelpCase) (string, Outcome) {
 			app.Cmd.LongDesc = c.LongDesc
 		}
 		conf(app.Cmd, 0)
-		argv := append([]string{"app"}, c.Parents...)
+		argv = append([]string{"app"}, c.Parents...)
 		if c.Long {
 			argv = append(argv, "--help")
 		} else {
@@ -248,6 +264,9 @@ func CheckC17(c *HelpCase, st *Stats) *Violation {
 	End()
 	if out.Panic != "" {
 		return Violf("printing help panicked: %s", out.Panic)
+	}
+	if out.Err == "DIFFERENT-SECOND-RENDERING" {
+		return Violf("the same help request printed a second time on the same application differs:\n--- first ---\n%s\n--- second ---\n%s", text, out.Raw["second"][0])
 	}
 	ws := strings.Fields(text)
 	fail := func(format string, a ...interface{}) *Violation {
